@@ -851,3 +851,44 @@ Example C05_ptr_answer_examples :
    ptr_answer [102; 46] lan = None)%N.
 Proof. exact ptr_answer_examples. Qed.
 Print Assumptions C05_ptr_answer_examples.
+
+From AGH Require Model.SvcbParams Proofs.SvcbParams.
+
+(** * Round 9: answers synthesised from rule text
+
+    An HTTPS / SVCB answer of a $dnsrewrite rule takes its parameters from the
+    rule's text (internal/dnsforward/svcbmsg.go).  Model/SvcbParams.v: what
+    net.ParseIP makes of an address text is nothing, an address with a 4-byte
+    form ([PFour]) or an IPv6 address proper ([PSix]); miekg/dns packs an
+    SVCBIPv4Hint only with the former and an SVCBIPv6Hint only with the
+    latter, and a response with a parameter that cannot be packed is not sent
+    at all.  For EVERY text: *)
+Theorem C05_produced_hint_has_family_of_key : forall v6key p h,
+  SvcbParams.hint_handler v6key p = Some h ->
+  if v6key then h = SvcbParams.Hint6 SvcbParams.PSix else h = SvcbParams.Hint4 SvcbParams.PFour.
+Proof. exact Proofs.SvcbParams.produced_hint_has_family_of_key. Qed.
+Print Assumptions C05_produced_hint_has_family_of_key.
+
+Theorem C05_produced_hint_packs : forall v6key p h,
+  SvcbParams.hint_handler v6key p = Some h -> SvcbParams.hint_packs h = true.
+Proof. exact Proofs.SvcbParams.produced_hint_packs. Qed.
+Print Assumptions C05_produced_hint_packs.
+
+Theorem C05_hint_handler_accepts : forall v6key p,
+  SvcbParams.hint_handler v6key p <> None <-> p = (if v6key then SvcbParams.PSix else SvcbParams.PFour).
+Proof. exact Proofs.SvcbParams.hint_handler_accepts. Qed.
+Print Assumptions C05_hint_handler_accepts.
+
+Theorem C05_produced_port_in_range : forall n z,
+  SvcbParams.port_handler n = Some z -> (0 <= z <= 65535)%Z.
+Proof. exact Proofs.SvcbParams.produced_port_in_range. Qed.
+Print Assumptions C05_produced_port_in_range.
+
+(** A handler without the family test of its key produces a hint that cannot
+    be packed (seeded change C05-Q; the ipv6hint handler of the tree before the
+    repair). *)
+Example C05_handler_without_family_test_refuted :
+  exists p h, (match p with SvcbParams.PNone => None | _ => Some (SvcbParams.Hint4 p) end) = Some h /\
+              SvcbParams.hint_packs h = false.
+Proof. exact Proofs.SvcbParams.handler_without_family_test_refuted. Qed.
+Print Assumptions C05_handler_without_family_test_refuted.
